@@ -9,6 +9,8 @@ from .mir import Site, Unverifiable, callee_is, callee_path, const_int, op_fn, o
 
 CFGS = {"quick": ["default", "all"], "thorough": ["default", "all", "nodefault", "tracing"]}
 
+WITNESS = ["LinearWorld"]  # doctests of engine/witness run in the thorough tier
+
 EXPLANATION = """
 (R1) World linearity: `unsafe_code` is forbidden at the crate root (so ownership cannot be circumvented), no
 long-lived runner state (Executor, Features, FinishedRulesAndFeatures, Basic, step::Collection, Cucumber, statics)
